@@ -498,8 +498,16 @@ func genOp(r *Rand, which int, id uint32, edge bool) OpCase {
 			codes = append(codes, c)
 			cc = append(cc, fmt.Sprintf("%d", c))
 		}
+		// the passcodes are a window of a larger table of the caller (spare capacity behind the slice): the table is intact afterwards
+		table := append(append([]uint32{}, codes...), 111111, 222222, 333333, 444444, 555555)
+		window := table[:len(codes)]
 		return simple("SetDoorPasscodes", 0x8c, fmt.Sprintf("SetDoorPasscodes %d %d %s", id, door, coqList(cc)), "SetDoorPasscodesResponse", func(u uhppote.IUHPPOTE) string {
-			return okBool(u.SetDoorPasscodes(id, door, codes...))
+			before := deepSnap(table)
+			res := okBool(u.SetDoorPasscodes(id, door, window...))
+			if deepSnap(table) != before {
+				return "RPanic" // the caller's data was modified (C07 / C17)
+			}
+			return res
 		})
 	case 26:
 		door := genU8(r)
